@@ -90,11 +90,16 @@ Proof.
       destruct (tkeys q) as [|k0 rest] eqn:EK.
       * rewrite restrict_terms_nil in Eq. injection Eq as <-.
         apply (delivers_empty_terms fl e q T T'); [|exact EK|exact E0]. apply (delivers_mono fl e q us [] T D). intros x [].
-      * apply (delivers_narrow fl e q us T [k0] q' [] T' D Eq); try discriminate; try (intros x []); try assumption.
+      * apply (delivers_narrow fl e q us T [k0] q' [] T' D Eq).
+        { discriminate. }
         { constructor; [intros []|constructor]. }
+        { intros x []. }
+        { intros x []. }
+        { intros x []. }
+        { exact E0. }
         { intros C IC. destruct C as [|c C']; [exact E0|destruct (IC c (or_introl eq_refl))]. }
     + assert (restrict_terms q (k1 :: keep') = Some q') as Eq' by (destruct (tkeys q); exact Eq).
-      apply (delivers_narrow fl e q us T (k1 :: keep') q' u T' D Eq'); try assumption; discriminate.
+      apply (delivers_narrow fl e q us T (k1 :: keep') q' u T' D Eq'); try assumption. discriminate.
 Qed.
 
 (* ------------------------------------------------------------------ extend with no requested output *)
@@ -125,16 +130,17 @@ Lemma sel_concat idc an bn A B K :
   incl K (cols A') ->
   sel K (sem_concat idc an bn A B) = mktable K (rows (sel K A') ++ rows (sel K B')).
 Proof.
-  intros NA WA WB EAB Hc A' B' IK. unfold sem_concat. destruct idc as [c|]; unfold sem_select_cols; cbn [cols rows]; f_equal; rewrite map_app; f_equal.
-  - subst A'. cbn [rows cols]. reflexivity.
-  - subst B'. cbn [rows cols]. rewrite !map_map. apply map_ext_in. intros r Ir. apply map_ext_in. intros k Ik.
+  intros NA WA WB EAB Hc A' B' IK. unfold sem_concat. destruct idc as [c|].
+  - unfold sem_select_cols. subst A' B'. cbn [cols rows] in *. f_equal. rewrite map_app. f_equal.
+    rewrite !map_map. apply map_ext_in. intros r Ir. apply map_ext_in. intros k Ik.
     assert (List.length r = List.length (cols B)) as L by (unfold width_ok in WB; rewrite Forall_forall in WB; apply WB, Ir).
-    specialize (IK k Ik). subst A'. cbn [cols] in IK. apply in_app_iff in IK. destruct IK as [IkA|[<-|[]]].
+    specialize (IK k Ik). apply in_app_iff in IK. destruct IK as [IkA|[<-|[]]].
     + rewrite (get_app_l (cols A) [c] _ [VStr bn] k) by (try apply map_length; exact IkA).
       rewrite (get_app_l (cols B) [c] r [VStr bn] k L) by (apply EAB, IkA). apply get_sel_row, IkA.
-    + rewrite (get_app_r (cols A) [k] _ [VStr bn] k) by (try apply map_length; exact Hc).
-      rewrite (get_app_r (cols B) [k] r [VStr bn] k L) by (intros I; apply Hc, EAB, I). reflexivity.
-  - rewrite map_map. apply map_ext_in. intros r Ir. apply map_ext_in. intros k Ik. apply get_sel_row. apply IK, Ik.
+    + rewrite (get_app_r (cols A) [c] _ [VStr bn] c) by (try apply map_length; exact Hc).
+      rewrite (get_app_r (cols B) [c] r [VStr bn] c L) by (intros I; apply Hc, EAB, I). reflexivity.
+  - unfold sem_select_cols. subst A' B'. cbn [cols rows] in *. f_equal. rewrite map_app. f_equal.
+    rewrite map_map. apply map_ext_in. intros r Ir. apply map_ext_in. intros k Ik. apply get_sel_row. apply IK, Ik.
 Qed.
 
 Lemma union_all_sel uj A B : union_all (sel uj A) (sel uj B) = Some (mktable uj (rows (sel uj A) ++ rows (sel uj B))).
@@ -160,7 +166,7 @@ Proof.
     assert (by_name qr (mk_tci (Some uj) true None) = false) as B2 by (destruct qr; reflexivity).
     rewrite B1 in *. rewrite B2 in *. cbn [tc_cols] in *. rewrite EA, EB, union_all_sel. reflexivity. }
   assert (sel [] U = sel [] T) as E0.
-  { rewrite (HT [] (fun x (H : In x []) => match H with end)). unfold U. apply sel_nil_length. cbn [rows]. rewrite !app_length, !map_length. reflexivity. }
+  { rewrite (HT [] (fun x (H : In x []) => match H with end)). unfold U, sem_select_cols. cbn [cols rows]. f_equal. rewrite map_app, !map_map. reflexivity. }
   assert (forall K, K <> [] -> incl K uj -> sql_select fl false (Some (pass_terms uj)) (Some K) SfxNone U = Some (sel K U)) as ES.
   { intros K NK IK. rewrite (sql_select_scalar fl false (pass_terms uj) K SfxNone U NK eq_refl).
     - f_equal. unfold sem_select_cols. f_equal. apply map_ext. intros r. apply map_ext. intros k. rewrite term_of_pass. reflexivity.
